@@ -29,6 +29,12 @@ CHECKS.update({
     note="Trusted: TLC, Escape.tla (the list of multi-character sequences treated as already escaped is an assumption stated in the module), Er7!ParseSeg for the count clause. Delimiters are punctuation characters.",
     ref="DESIGN.md §4 C06, §3.2"),
 })
+CHECKS.update({
+ "C16": dict(technique="TLA+ state machine of the MLLP server and its clients (Mllp.tla) model-checked by TLC (safety + liveness); the real request handler driven over a scripted connection for every chunking/fault the model's client actions describe, and a real loopback server with concurrent clients; each connection's observation judged by the TLC trace specification MllpTrace",
+    text="TLC explores every chunking of the scripts, every interleaving of 2 clients and their handler threads (3 in thorough), early close and stall, and checks at-most-one call, outcome-is-a-function-of-consumed-bytes, full-frame-served, no cross-talk, line-is-prefix and eventual close. The real MLLPRequestHandler is then run for 16 script families x all two-way splits, delicate three-way and random k-way splits x fault after each chunk x ERR handler on/off, and concurrent TCP clients with distinct messages hit a real MLLPServer; TLC decides per connection: exactly the expected handler with exactly the framed text, that handler's reply and no other, closed; nothing for bad input.",
+    note="Trusted: TLC, Mllp.tla/MllpFrame.tla, the scripted connection object (one client chunk per read). The handler receives the payload with its final segment terminator; the check demands exactly the bytes between start block and end block, which is the frame's text plus that CR, and that it re-parses to the same ER7. Real TCP scheduling is sampled, not controlled.",
+    ref="DESIGN.md §4 C16, §3.9"),
+})
 NOT_YET = {}
 def main():
     props = [json.loads(l) for l in open(os.path.join(HERE, "properties.jsonl"))]
